@@ -10,6 +10,8 @@
 -/
 import GunYu.Model.ClusterRoute
 import GunYu.Model.ClusterSender
+import GunYu.Model.ClusterSegments
+import GunYu.Proofs.ClusterSegments
 import GunYu.Proofs.ClusterRoute
 
 namespace GunYu.Props.C19
@@ -327,5 +329,144 @@ open GunYu.ClusterSender in
 example : sendFunc ⟨false, false⟩ [some .redirect, none] 0 = (2, .ok) := by decide
 open GunYu.ClusterSender in
 example : sendFunc ⟨true, true⟩ [some .crossslot, none] 0 = (1, .brk) := by decide
+
+/-- bridge to the composition below: in a quiet run the commands of an ACKNOWLEDGED batch
+    appear, for every key, in the segment's execution log of that key in their put (source)
+    order — complete and in order (`Complete` of Model/ClusterSegments), while that log itself is
+    strictly increasing (`per_key_order_partial`: nothing twice, `AppOK`) -/
+theorem acked_batch_executed_in_order (slotOf : Key → Slot) (sv : Srv) (slots : Slot → Node)
+    (evs : List Ev) (s : St)
+    (hrun : run slotOf (init sv slots) evs = .ok s)
+    (hq : QuietRun slotOf (init sv slots) evs) :
+    ∀ b ∈ s.acked, ∀ cs, (b, cs) ∈ s.batches → ∀ k, (idsC cs k).Sublist (keyLog s.log k) := by
+  have hi := Inv_run slotOf evs _ s (Inv_init slotOf sv slots) hq hrun
+  have hb := BatchesSorted_run slotOf evs _ s (Inv_init slotOf sv slots)
+    (fun b cs hm => by simp [init] at hm) hq hrun
+  intro b hba cs hm k
+  apply sorted_subset_sublist _ _ (hb b cs hm k) (keyLog_sorted_of_seq slotOf hi k)
+  intro a ha
+  simp only [idsC, List.mem_map, List.mem_filter] at ha
+  obtain ⟨c, ⟨hc, hk⟩, rfl⟩ := ha
+  obtain ⟨e, he, hec, _⟩ := redirect_never_loses slotOf sv slots evs s hrun b hba cs hm c hc
+  simp only [keyLog, List.mem_map, List.mem_filter]
+  exact ⟨e, ⟨he, by rw [hec]; exact hk⟩, by rw [hec]⟩
+
+/-! ### composition over sender segments (blocking modes): reconnects, hand-overs, restarts
+
+    Model/ClusterSegments.lean. An execution = any list of segments (each: the stored position
+    is read from the target, batches are sent from there, each batch is acknowledged completely
+    or cut at any point, the segment ends cleanly / on a receiver error / by a close / by a
+    hand-over). The per-segment theorems above are what makes a batch admissible
+    (`AppOK`: within its range, nothing twice — `per_key_order_partial`; `Complete`: an
+    acknowledged batch executed everything, per group in order — `redirect_never_loses`,
+    `unexecuted_blocks_ok`). Quantifier: every stream length `n`, every grouping `grp`, every
+    list of segments / events, any number of them, any end reasons, any cut inside a batch. -/
+
+open GunYu.ClusterSegments in
+/-- (1) whatever happened before — any number of segments, cuts, replays — the target's
+    EFFECTIVE stream (last execution of every command) below the sender's position, and below
+    the stored position, is per group exactly the specification prefix, in order -/
+theorem segments_effective_prefix (n : Nat) (grp : Nat → Nat) (sgs : List Segment) (s : Tgt)
+    (h : runSegments n grp {} sgs = some s) (g : Nat) :
+    effBelow grp s.log s.cur g = specBelow grp s.cur g ∧
+    effBelow grp s.log s.stored g = specBelow grp s.stored g := by
+  have hi := SInv_run n grp _ _ s (SInv_init n grp) h
+  exact ⟨hi.eff g, effBelow_mono grp s.log s.cur s.stored g hi.le1 (hi.eff g)⟩
+
+open GunYu.ClusterSegments in
+/-- (1) under the fault model "a slot is redirected / a connection is lost / the run is
+    closed" (a cut batch executes, per group, a prefix of its part) the SET of executed
+    commands is per group a prefix of the specification stream at every moment -/
+theorem segments_executed_downward_closed (n : Nat) (grp : Nat → Nat) (evs : List ClusterSegments.Ev) (s : Tgt)
+    (h : ClusterSegments.run n grp {} evs = some s) (hp : PrefixRun n grp {} evs) : DownClosed grp s.log :=
+  DownClosed_run n grp evs _ s (SInv_init n grp) (fun _ hi => absurd hi List.not_mem_nil) hp h
+
+open GunYu.ClusterSegments in
+/-- (1) replay only re-executes what was not yet acknowledged-and-stored: every batch, in
+    every segment, executes commands at or above the position stored at that moment -/
+theorem segments_replay_only_unstored (n : Nat) (grp : Nat → Nat) (evs : List ClusterSegments.Ev) (s1 s2 : Tgt)
+    (q : Nat) (o : Outcome) (h1 : ClusterSegments.run n grp {} evs = some s1)
+    (h2 : ClusterSegments.step n grp s1 (.batch q o) = some s2) :
+    ∃ app, s2.log = s1.log ++ app ∧ ∀ i ∈ app, s1.stored ≤ i :=
+  batch_above_stored n grp (SInv_run n grp _ _ s1 (SInv_init n grp) h1) h2
+
+open GunYu.ClusterSegments in
+/-- (1) without a replay (no new segment, no cut batch) nothing is executed twice -/
+theorem segments_no_replay_no_duplicate (n : Nat) (grp : Nat → Nat) (evs : List ClusterSegments.Ev) (s : Tgt)
+    (ho : OnlyAcked evs) (h : ClusterSegments.run n grp {} evs = some s) : s.log.Nodup :=
+  (no_replay_nodup n grp evs _ s List.nodup_nil (fun _ hi => absurd hi List.not_mem_nil) ho h).1
+
+open GunYu.ClusterSegments in
+/-- (2) the stored position never moves backwards across events and segments, never exceeds
+    what was acknowledged, and everything below what was acknowledged has been executed -/
+theorem segments_position_sound (n : Nat) (grp : Nat → Nat) (evs1 evs2 : List ClusterSegments.Ev) (s1 s2 : Tgt)
+    (h1 : ClusterSegments.run n grp {} evs1 = some s1) (h2 : ClusterSegments.run n grp s1 evs2 = some s2) :
+    s1.stored ≤ s2.stored ∧ s2.stored ≤ s2.acked ∧ s2.acked ≤ n ∧ ∀ i, i < s2.acked → i ∈ s2.log := by
+  have hi1 := SInv_run n grp _ _ s1 (SInv_init n grp) h1
+  have hi2 := SInv_run n grp _ _ s2 hi1 h2
+  exact ⟨stored_mono_run n grp evs2 s1 s2 hi1 h2, Nat.le_trans hi2.le1 hi2.le2, hi2.le3, hi2.inlog⟩
+
+open GunYu.ClusterSegments in
+/-- (3) once a (clean) segment has brought the sender to the end of the stream, the target's
+    effective stream is, per group, exactly the specification -/
+theorem segments_clean_final_equals_spec (n : Nat) (grp : Nat → Nat) (sgs : List Segment) (s : Tgt)
+    (h : runSegments n grp {} sgs = some s) (hend : s.cur = n) (g : Nat) :
+    (keepLast s.log).filter (fun i => grp i == g) = (List.range n).filter (fun i => grp i == g) := by
+  have hi := SInv_run n grp _ _ s (SInv_init n grp) h
+  have he := hi.eff g
+  rw [hend] at he
+  unfold effBelow specBelow at he
+  rw [← he]
+  apply List.filter_congr
+  intro i hik
+  have : i < n := hi.bound i ((mem_keepLast i s.log).mp hik)
+  simp [this]
+
+/-! the statement without the blocking discipline, and why it is kept apart -/
+
+open GunYu.ClusterSegments in
+/-- full statement for an arbitrary sender (`runner`): the stored position is covered by
+    executed commands -/
+def stored_position_covered_stmt (runner : Tgt → List PEv → Option Tgt) : Prop :=
+  ∀ (evs : List PEv) (s : Tgt), runner {} evs = some s → ∀ i, i < s.stored → i ∈ s.log
+
+open GunYu.ClusterSegments in
+/-- blocking modes: proved (no position is ever stored ahead) -/
+theorem stored_position_covered_blocking (n : Nat) (grp : Nat → Nat) (evs : List ClusterSegments.Ev) (s : Tgt)
+    (h : ClusterSegments.run n grp {} evs = some s) : ∀ i, i < s.stored → i ∈ s.log := by
+  have hi := SInv_run n grp _ _ s (SInv_init n grp) h
+  intro i hlt
+  exact hi.inlog i (by have := hi.le1; have := hi.le2; omega)
+
+open GunYu.ClusterSegments in
+/-- pipelined mode (C19-F2): a position written for a dispatched, not yet acknowledged batch,
+    then the batch is cut: the stored position covers a command that never executed -/
+theorem stored_position_covered_pipelined_false :
+    ¬ stored_position_covered_stmt (prun 2 (fun _ => 0)) := by
+  intro h
+  have := h [.ev .start, .storeAhead 2, .ev (.batch 2 (.cut [1]))]
+    { log := [1], stored := 2, acked := 0, cur := 0 } (by decide) 0 (by decide)
+  revert this
+  decide
+
+/-! non-vacuity: three segments — a receiver error in the middle of a batch, a hand-over, a
+    clean one — over two groups (even / odd positions), with an interleaved acknowledged batch -/
+
+open GunYu.ClusterSegments in
+def segsEx : List Segment := [
+  { batches := [(2, .ok [0, 1] true), (5, .cut [2, 4])], ending := .receiverError },
+  { batches := [(4, .ok [3, 2] false)], ending := .handOver },
+  { batches := [(6, .ok [2, 3, 4, 5] true)], ending := .clean }]
+
+open GunYu.ClusterSegments in
+example : (runSegments 6 (· % 2) {} segsEx).map (fun s => (s.log, s.stored, s.acked, s.cur, keepLast s.log)) =
+    some ([0, 1, 2, 4, 3, 2, 2, 3, 4, 5], 6, 6, 6, [0, 1, 2, 3, 4, 5]) := by decide
+open GunYu.ClusterSegments in
+example : ∀ sg ∈ segsEx, sg.wellFormed := by decide
+open GunYu.ClusterSegments in
+example : PrefixRun 6 (· % 2) {} (segsEx.flatMap Segment.events) := prefixRun_of_B _ _ _ _ (by decide)
+open GunYu.ClusterSegments in
+/-- a batch whose acknowledged part is not complete is not a step -/
+example : (ClusterSegments.run 4 (· % 2) {} [.start, .batch 4 (.ok [0, 1, 3] true)]).isNone := by decide
 
 end GunYu.Props.C19
